@@ -16,7 +16,7 @@ RULE = ('Inputs: every built-in function x argument shape {literal, reference, s
         'input is passed to every applicable rewriting function; the outcome must be a result of the documented kind '
         'or a licensed failure. Non-trivial = the function returned an object different from its input or raised; '
         'distinct = (api, input shape).')
-RULE_ADDED = " Since the seeding rounds: constant predicates in split positions, every operator x operand-kind pair the parser accepts, constant-power grid, aggregates over ranges of 10..10^18 integers; simplify's result type must lie inside the input type."
+RULE_ADDED = " Since the seeding rounds: constant predicates in split positions, every operator x operand-kind pair the parser accepts, constant-power grid, aggregates over ranges of 10..10^18 integers, top-level ranges/sets/arrays (bounds equal, equal after folding, reversed); simplify's result type must lie inside the input type."
 ASSUMPTIONS = [
     'simplify may raise only when a reference-free subterm is undefined or a divisor is zero on the whole grid; '
     'split_and may raise ValueError only when the input is false on the whole grid; a TypeError from a replacement '
@@ -362,6 +362,31 @@ def run(ctx):
                 ctx.count('escaped_string_folds')
                 apply_all(o[1], e, grid_envs, f'esc:{len(s1)}|{s1 == s2}|{e[0]}{e[1]}', extra_feats=('shape:escaped-string',),
                           remake=parse_remake('expression'))
+
+    # B6. expressions that are not of a primitive type at top level: ranges (every exclusion combination; bounds equal,
+    # equal after folding, reversed, references), sets (singletons, duplicates, references), arrays, the message
+    one = A.num('1')
+    bounds = ((one, one), (A.num('0'), A.num('0')), (A.fld('x'), A.fld('x')), (A.num('2'), ('bin', '+', one, one)),
+              (('bin', '+', A.fld('x'), A.num('0')), ('bin', '*', A.fld('x'), one)), (A.neg(A.neg(A.fld('y'))), A.fld('y')),
+              (one, A.num('1.0')), (one, A.num('3')), (A.num('3'), one), (A.fld('x'), A.fld('y')),
+              (('bin', '-', A.fld('x'), A.fld('x')), ('call', 'len', (A.fld('xs'),))))
+    tops = [('range', lo, hi, exlo, exhi) for lo, hi in bounds for exlo in (False, True) for exhi in (False, True)]
+    tops += [('set', (one,)), ('set', (one, one)), ('set', (A.fld('x'),)), ('set', (A.fld('x'), A.fld('x'))),
+             ('set', (('bin', '+', one, one), A.num('2'))), ('set', (A.string('a'), A.boolean(True))), A.fld('xs'), A.fld('bs'),
+             A.fld('m'), ('field', A.var('A'), 'xs'), ('this',)]
+    for e in tops:
+        cellno += 1
+        if not ctx.mine(cellno):
+            continue
+        o = hplapi.outcome(PE.parse, A.render_expr(e)) if A.renderable(e) else ('raise', ValueError())
+        if o[0] != 'ok':
+            o = hplapi.outcome(hplapi.build_expr, e)
+        if o[0] != 'ok':
+            ctx.skip('top-level-compound-rejected:' + type(o[1]).__name__)
+            continue
+        ctx.count('top_level_compounds')
+        apply_all(o[1], e, grid_envs, f'top:{e[0]}|{A.shape(e)}|{e[3:] if e[0] == "range" else ""}',
+                  extra_feats=('shape:top-level-compound',), remake=build_remake)
 
     # C. random typed expressions and predicates
     for n in range(ctx.share(B['random'])):
